@@ -22,8 +22,8 @@ ASSUMPTIONS = [
     "changing the trainer's tie-break rule keeps every clause true and is not detectable here by design",
 ]
 MIN_NONTRIVIAL = {"quick": 500, "thorough": 3000}
-REQUIRED = {"quick": {"fits": 3000, "decoded_fit": 5000, "decoded_transform": 100000, "jit_len01": 20},
-            "thorough": {"fits": 20000, "decoded_fit": 40000, "decoded_transform": 1000000, "jit_len01": 100}}
+REQUIRED = {"quick": {"fits": 3000, "decoded_fit": 5000, "decoded_transform": 100000, "jit_len01": 20, "long_strings": 4},
+            "thorough": {"fits": 20000, "decoded_fit": 40000, "decoded_transform": 1000000, "jit_len01": 100, "long_strings": 6}}
 
 
 def plan(tier, seed):
@@ -256,6 +256,14 @@ def gen_rand(r):
 
 def run_rand(ctx):
     n = {"PY": ctx.pick(600, 5000), "JIT": ctx.pick(500, 4000), "BC": ctx.pick(200, 1500)}[ctx.mode]
+    if ctx.mode == "JIT" and ctx.shard == 0:
+        # strings longer than 2^16 codes (index width of the compiled kernels)
+        r = ctx.rng("long")
+        for L in (65535, 65536, 65537, 70000) + (() if ctx.quick else (131073, 200000)):
+            s_ = "".join(r.choice("abcd") for _ in range(L))
+            c = {"corpus": [s_, "abcabd" * 5], "test": [s_[: L // 2], s_, "", "a"], "max_vocab_size": 20, "min_token_occurrence": 1, "max_char_code": 0, "views": False}
+            ctx.count("long_strings")
+            check_case(ctx, c)
     for i in ctx.indices(n):
         c = gen_rand(ctx.rng(i))
         if i < 2:
